@@ -38,19 +38,34 @@ func (a *app) Value() V {
 func (a *app) Valid(v V) bool { return validValue(v) }
 
 type valset struct {
-	power []types.VotingPower
+	power []types.VotingPower // powers at height 0 (and at every height unless perHeight is set)
 	total types.VotingPower
+	// perHeight[h] overrides the powers from height h on (validator-set changes between heights)
+	perHeight map[types.Height][]types.VotingPower
 	// proposer schedule: stride chosen per run so that proposer rotation varies
 	stride int
 }
 
-func (vs *valset) TotalVotingPower(types.Height) types.VotingPower { return vs.total }
-func (vs *valset) ValidatorVotingPower(_ types.Height, a *A) types.VotingPower {
+func (vs *valset) powersAt(h types.Height) []types.VotingPower {
+	if p, ok := vs.perHeight[h]; ok {
+		return p
+	}
+	return vs.power
+}
+
+func (vs *valset) TotalVotingPower(h types.Height) types.VotingPower {
+	var t types.VotingPower
+	for _, p := range vs.powersAt(h) {
+		t += p
+	}
+	return t
+}
+func (vs *valset) ValidatorVotingPower(h types.Height, a *A) types.VotingPower {
 	i := int(a[0]) - 1
 	if i < 0 || i >= len(vs.power) || a[1] != 0 || a[2] != 0 || a[3] != 0 {
 		return 0
 	}
-	return vs.power[i]
+	return vs.powersAt(h)[i]
 }
 func (vs *valset) Proposer(h types.Height, r types.Round) A {
 	n := len(vs.power)
@@ -159,14 +174,37 @@ func C12(c *sim.Ctx) {
 	for _, p := range powers {
 		total += p
 	}
-	w.vs = &valset{power: powers, total: total, stride: 1 + t.Draw("stride", 3)}
+	w.vs = &valset{power: powers, total: total, stride: 1 + t.Draw("stride", 3), perHeight: map[types.Height][]types.VotingPower{}}
+	if cls == 3 && t.Draw("valset.changes", 2) == 1 {
+		// the validator set's powers change between heights
+		for h := types.Height(1); h <= 4; h++ {
+			ph := make([]types.VotingPower, len(powers))
+			for i := range ph {
+				ph[i] = types.VotingPower(t.Range("power.h", 1, 6))
+			}
+			w.vs.perHeight[h] = ph
+		}
+		c.Probe("validator_powers_change_between_heights")
+	}
 	// Byzantine set: total power strictly less than one third of the total (the statement's assumption)
 	var bp types.VotingPower
 	order := permutation(c, w.n)
 	wantByz := t.Draw("byzantine", 4) != 0
 	if wantByz {
 		for _, i := range order {
-			if 3*(bp+powers[i]) < total {
+			// strictly less than a third of the total power at EVERY height
+			ok := true
+			for h := types.Height(0); h <= 4; h++ {
+				var b types.VotingPower
+				ph := w.vs.powersAt(h)
+				for j := range w.byz {
+					b += ph[j]
+				}
+				if 3*(b+ph[i]) >= w.vs.TotalVotingPower(h) {
+					ok = false
+				}
+			}
+			if ok {
 				w.byz[i] = true
 				bp += powers[i]
 			}
@@ -408,17 +446,18 @@ func copyID(id *H) *H {
 
 // quorum and fault bounds recomputed from the statement, not from the implementation:
 // faulty power is strictly less than a third; a quorum is any power q with 2q-N > maxFaulty.
-func (w *world) powerOf(senders map[int]bool) types.VotingPower {
+func (w *world) powerOf(h types.Height, senders map[int]bool) types.VotingPower {
 	var p types.VotingPower
+	ph := w.vs.powersAt(h)
 	for s := range senders {
-		p += w.vs.power[s]
+		p += ph[s]
 	}
 	return p
 }
 
-func (w *world) isQuorum(p types.VotingPower) bool {
-	// more than two thirds of the total
-	return 3*p >= 2*w.vs.total
+func (w *world) isQuorum(h types.Height, p types.VotingPower) bool {
+	// at least two thirds of the total power of that height
+	return 3*p >= 2*w.vs.TotalVotingPower(h)
 }
 
 func (w *world) handle(nd *node, acts []actions.Action[V, H, A]) {
@@ -462,9 +501,9 @@ func (w *world) handle(nd *node, acts []actions.Action[V, H, A]) {
 			w.checkSingleVote(nd, m)
 			if a.ID != nil {
 				// a correct validator precommits a value only after a quorum of prevotes for it (line 36)
-				got := w.powerOf(nd.recvPrevotes[a.Height][a.Round][*a.ID])
-				if !w.isQuorum(got) {
-					c.Fail("precommit_without_polka", "precommit", "n%d precommitted %x at h%d r%d with prevote power %d of %d", nd.idx, a.ID[0], a.Height, a.Round, got, w.vs.total)
+				got := w.powerOf(a.Height, nd.recvPrevotes[a.Height][a.Round][*a.ID])
+				if !w.isQuorum(a.Height, got) {
+					c.Fail("precommit_without_polka", "precommit", "n%d precommitted %x at h%d r%d with prevote power %d of %d", nd.idx, a.ID[0], a.Height, a.Round, got, w.vs.TotalVotingPower(a.Height))
 				}
 				nd.lastLockR[a.Height] = a.Round
 				nd.lastLockID[a.Height] = *a.ID
@@ -564,7 +603,7 @@ func (w *world) checkLockRule(nd *node, m msg) {
 		if p.val.Hash() != *m.id || p.vr < rl || p.vr >= m.r || addr(p.sender) != w.vs.Proposer(m.h, m.r) {
 			continue
 		}
-		if w.isQuorum(w.powerOf(nd.recvPrevotes[m.h][p.vr][*m.id])) {
+		if w.isQuorum(m.h, w.powerOf(m.h, nd.recvPrevotes[m.h][p.vr][*m.id])) {
 			w.c.Probe("legal_unlock")
 			return
 		}
@@ -682,8 +721,8 @@ func thresholds(c *sim.Ctx) {
 				if !foundF && vc.HasNonFaultyFutureMessage(1) {
 					foundF, fReal = true, pw-wgt // largest power that is still tolerated as faulty
 				}
-				c.Evals++
 			}
+			c.Evals++
 			if !foundQ || !foundF {
 				c.Fail("threshold", "never", "N=%d: quorum reached=%v, f+1 reached=%v with all validators voting", total, foundQ, foundF)
 			}
